@@ -29,7 +29,11 @@ Definition state_toks (e : env) : list tok :=
   let s := se e in
   [TS (match s with SExpect _ => "expect" | SSend _ => "send" | SRelay _ => "relay" | SPipe _ => "pipe" | SDone => "closed" end);
    TN (rd_bits (fr_int s)); TN (rd_bits (fr_ev s)); TN (rd_bits (br_int s)); TN (rd_bits (br_ev s));
-   tn_bool (match s with SPipe p => check_connections p | _ => false end)]
+   tn_bool (match s with SPipe p => check_connections p | _ => false end);
+   (* has the backend peer seen the client's end-of-stream (observable once its socket is drained) *)
+   tn_bool (match s with
+            | SPipe p => bfin p && negb (wclosed (bsock e)) && (match wcap (bsock e) with None => true | Some _ => false end)
+            | _ => false end)]
   ++ match s with
      | SExpect x => addr_toks (xaddr x)
      | SRelay x => addr_toks (raddr x)
@@ -153,6 +157,7 @@ Definition step (e : env) (op : list tok) : env * list tok :=
     else if name =? "bblock" then
       (if wclosed (bsock e) || is_done e then e else e_b e (s_wcap (bsock e) (Some O)), [])
     else if name =? "bunblock" then (e_b e (s_wcap (bsock e) None), [])
+    else if name =? "bsndbuf" then (e, [])
     else if name =? "connected" then let e' := connected e in (e', state_toks e')
     else if name =? "ev" then
       match args with
@@ -164,6 +169,14 @@ Definition step (e : env) (op : list tok) : env * list tok :=
     else if is_done e then (e, [TS "closed"])
     else if name =? "ready" then let '(e', r) := ready 5%nat e in finish e' r
     else if name =? "drain" then let '(e', r) := drain 8%nat e (Some Continue) in finish e' r
+    else if name =? "bwp" then
+      (* back_writable with the write window the kernel granted on the implementation (model_ops) *)
+      match args with
+      | [TN n] =>
+        let e1 := e_b e (s_wcap (bsock e) (Some (Z.to_nat n))) in
+        let '(e2, r) := h_back_writable e1 in
+        finish (e_b e2 (s_wcap (bsock e2) None)) r
+      | _ => bad end
     else if name =? "upgrade" then
       let '(e', ok) := upgrade e in finish e' (Some (if ok then Continue else Close))
     else if name =? "h" then
